@@ -24,11 +24,11 @@ pub fn check_bounds(input: &[u8], offset: u32, size: u32, mipmap_index: usize) -
     }
 
     // Check if offset + size extends beyond input bounds
-    if (offset + size) as usize > input.len() {
+    if offset as usize + size as usize > input.len() {
         error!(
             "Offset+size of mipmap {} is out of bounds! {} > {}",
             mipmap_index,
-            offset + size,
+            offset as u64 + size as u64,
             input.len()
         );
         return Err(Error::OutOfBounds {
